@@ -277,11 +277,43 @@ def _fn_at(ranges, line):
 UTF8_UNWINDSET = None
 
 
-def kani_env(prop_id):
+SEED = os.path.join(CACHE, "kani-target", "_seed")
+
+
+def ensure_seed():
+    """dependency cache: one Kani target dir with the crate's dependencies compiled, copied for each
+    harness group (so that concurrent `cargo kani` runs never share a target dir)"""
+    if os.path.isdir(os.path.join(SEED, "kani")):
+        return
+    import fcntl
+    os.makedirs(os.path.dirname(SEED), exist_ok=True)
+    with open(SEED + ".lock", "w") as lk:
+        fcntl.flock(lk, fcntl.LOCK_EX)
+        if os.path.isdir(os.path.join(SEED, "kani")):
+            return
+        log("[setup] building Kani dependency cache (once)")
+        sc = make_scratch()
+        try:
+            with open(os.path.join(sc, "src", "lib.rs"), "a") as f:
+                f.write("\n#[cfg(kani)]\nmod verif_seed { #[kani::proof] fn seed() { assert!(1 + 1 == 2); } }\n")
+            env = dict(os.environ, CARGO_NET_OFFLINE="true", CARGO_TARGET_DIR=SEED)
+            subprocess.run(["cargo", "kani", "--features", "statistics,stream", "--harness", "verif_seed::seed", "--exact"], cwd=sc, env=env,
+                           stdout=subprocess.PIPE, stderr=subprocess.STDOUT, text=True, timeout=1800)
+            _prune_dir(SEED)
+        finally:
+            shutil.rmtree(sc, ignore_errors=True)
+
+
+def kani_env(key):
     env = dict(os.environ)
     env["CARGO_NET_OFFLINE"] = "true"
-    tdir = os.path.join(CACHE, "kani-target", prop_id)
-    os.makedirs(tdir, exist_ok=True)
+    tdir = os.path.join(CACHE, "kani-target", key)
+    if not os.path.isdir(tdir):
+        ensure_seed()
+        if os.path.isdir(SEED):
+            subprocess.run(["cp", "-a", SEED, tdir])
+        else:
+            os.makedirs(tdir, exist_ok=True)
     env["CARGO_TARGET_DIR"] = tdir
     return env, tdir
 
@@ -317,13 +349,15 @@ def fq(h):
     """fully qualified harness name: verif_kani::<module>::<harness>; the module is the harness-name prefix"""
     if "::" in h:
         return h
-    return "verif_kani::%s::%s" % (h.split("_")[0], h)
+    mod = h.split("_")[0]
+    mod = {"c03": "c04", "c05": "c04"}.get(mod, mod)
+    return "verif_kani::%s::%s" % (mod, h)
 
 
 def run_kani_group(prop_id, scratch, harnesses, features=None, cbmc_args=None, jobs=None, timeout_s=1800, mem_gb=12,
-                   extra_flags=None):
+                   extra_flags=None, key=None):
     """run `cargo kani` once for a list of harness names; returns list of per-harness result dicts"""
-    env, tdir = kani_env(prop_id)
+    env, tdir = kani_env(key or prop_id)
     out_json = os.path.join(scratch, "kani-%s.json" % hashlib.md5(" ".join(harnesses).encode()).hexdigest()[:8])
     jobs = jobs or min(len(harnesses), NCPU)
     cmd = ["cargo", "kani", "-Z", "function-contracts", "-Z", "stubbing", "-Z", "unstable-options",
@@ -372,7 +406,7 @@ def run_kani_group(prop_id, scratch, harnesses, features=None, cbmc_args=None, j
         for r in js.get("verification_results", {}).get("results", []):
             by_h[r["harness_id"].split("::")[-1]] = r
         for r in js.get("cbmc", []):
-            stats[r["harness_id"].split("::")[-1]] = r.get("cbmc_stats", {})
+            stats[r["harness_id"].split("::")[-1]] = r.get("cbmc_stats") or {}
     compile_failed = ("error: could not compile" in text) or ("error[E" in text)
     for h in harnesses:
         res = dict(harness=h, engine="kani", status="undecided", reason="", checks=0, failed=[], covers=(0, 0),
@@ -426,7 +460,7 @@ def run_kani_group(prop_id, scratch, harnesses, features=None, cbmc_args=None, j
 
 def kani_playback(prop_id, scratch, harness, features=None, cbmc_args=None):
     """re-run one failing harness with concrete playback; returns (test_source, test_name, file_rel, native_confirms, log)"""
-    env, tdir = kani_env(prop_id)
+    env, tdir = kani_env(prop_id + ".pb")
     before = {}
     for p in glob.glob(os.path.join(scratch, "src", "verif_kani", "*.rs")):
         before[p] = open(p).read()
@@ -441,22 +475,41 @@ def kani_playback(prop_id, scratch, harness, features=None, cbmc_args=None):
     except subprocess.TimeoutExpired:
         return None, None, None, False, "playback generation timed out"
     test_src, test_name, file_rel = None, None, None
+    added = ""
     for pth, old in before.items():
         new = open(pth).read()
-        if new != old and new.startswith(old[:len(old) - 1]):
-            test_src = new[len(old):]
+        if new != old and len(new) > len(old):
+            added = new[len(old.rstrip("\n")):] if new.startswith(old.rstrip("\n")) else new[len(old):]
             file_rel = os.path.relpath(pth, scratch)
-            m = re.search(r"fn (kani_concrete_playback_[A-Za-z0-9_]+)", test_src)
-            test_name = m.group(1) if m else None
-    if not test_name:
+            # restore the file; candidate tests are appended one at a time below
+            open(pth, "w").write(old)
+    if not added:
         return None, None, None, False, p.stdout[-1500:]
-    ok, out = run_native_playback(prop_id, scratch, test_name, features)
-    return test_src, test_name, file_rel, ok, out
+    # one generated test per failed check *and* per cover: keep the ones for failed checks
+    tests = ["/// Test generated for harness" + t for t in added.split("/// Test generated for harness")[1:]]
+    cands = [t for t in tests if "Check for `cover`" not in t]
+    last_out = ""
+    for t in cands[:6]:
+        m = re.search(r"fn (kani_concrete_playback_[A-Za-z0-9_]+)", t)
+        if not m:
+            continue
+        name = m.group(1)
+        pth = os.path.join(scratch, file_rel)
+        orig = open(pth).read()
+        open(pth, "w").write(orig + "\n" + t)
+        ok, out = run_native_playback(prop_id, scratch, name, features)
+        open(pth, "w").write(orig)
+        last_out = out
+        if test_src is None or ok:
+            test_src, test_name = t, name
+        if ok:
+            return test_src, test_name, file_rel, True, out
+    return test_src, test_name, file_rel, False, last_out
 
 
 def run_native_playback(prop_id, scratch, test_name, features=None):
-    env, tdir = kani_env(prop_id)
-    cmd = ["cargo", "kani", "playback", "-Z", "concrete-playback"]
+    env, tdir = kani_env(prop_id + ".pb")
+    cmd = ["cargo", "kani", "playback", "-Z", "concrete-playback", "--lib"]
     if features:
         cmd += ["--features", ",".join(features)]
     cmd += ["--", test_name]
@@ -465,7 +518,8 @@ def run_native_playback(prop_id, scratch, test_name, features=None):
     except subprocess.TimeoutExpired:
         return False, "native playback timed out"
     failed = ("test result: FAILED" in p.stdout) and (test_name in p.stdout)
-    return failed, p.stdout[-3000:]
+    keep = [l for l in p.stdout.split("\n") if ("panicked at" in l or "test result" in l or l.startswith("test ") or "attempt to" in l or "assertion" in l or l.startswith("error"))]
+    return failed, "\n".join(keep[-40:])
 
 
 # ------------------------------------------------------------------------------------------
@@ -563,10 +617,11 @@ def main(argv):
             _prune_target(prop)
 
 
-def _prune_target(prop):
-    tdir = os.path.join(CACHE, "kani-target", prop)
-    for pat in ("kani/*/debug/deps/dlt_core-*", "kani/*/debug/deps/libdlt_core-*", "kani/*/debug/build/dlt-core-*",
+def _prune_dir(tdir):
+    for pat in ("kani/*/debug/deps/dlt_core-*", "kani/*/debug/deps/libdlt_core-*", "kani/*/debug/build/dlt-core-*", "kani/*/debug/build/dlt-core",
                 "kani/*/debug/.fingerprint/dlt-core-*", "kani/*/debug/incremental/dlt_core-*",
+                "*/debug/deps/dlt_core-*", "*/debug/deps/libdlt_core-*", "*/debug/.fingerprint/dlt-core-*",
+                "*/debug/incremental/dlt_core-*", "*/debug/build/dlt-core-*",
                 "debug/deps/dlt_core-*", "debug/deps/libdlt_core-*", "debug/.fingerprint/dlt-core-*",
                 "debug/incremental/dlt_core-*", "debug/build/dlt-core-*"):
         for p in glob.glob(os.path.join(tdir, pat)):
@@ -577,6 +632,12 @@ def _prune_target(prop):
                     os.remove(p)
                 except OSError:
                     pass
+
+
+def _prune_target(prop):
+    for tdir in glob.glob(os.path.join(CACHE, "kani-target", prop + ".*")) + [os.path.join(CACHE, "kani-target", prop)]:
+        if os.path.isdir(tdir):
+            _prune_dir(tdir)
 
 
 def run_check(prop, spec, tier, seed, scratch, workdir):
@@ -650,17 +711,52 @@ def run_check(prop, spec, tier, seed, scratch, workdir):
         inj = inject(scratch)
         for c in inj.get("contracts", []):
             functions_under_contract.append("%s (%s:%s, kani contract: %s)" % (c["select"], c["file"], c["line"], "; ".join(c["attrs"])[:200]))
-    for key, hs in groups.items():
+    group_results = {}
+    if groups:
+        import threading
+        total_h = sum(len(v) for v in groups.values())
+        budget = dict(cpu=NCPU, mem=52)
+        cv = threading.Condition()
+
+        def worker(idx, key, hs):
+            feats, cargs, tmo, mem, jobs = key
+            names = [h["name"] for h in hs]
+            j = jobs or max(1, min(len(names), (NCPU * len(names)) // max(total_h, 1) or 1, NCPU))
+            j = max(1, min(j, 52 // max(mem, 1)))
+            need_mem = min(j * mem, 52)
+            with cv:
+                while budget["cpu"] < j and budget["cpu"] < NCPU or budget["mem"] < need_mem:
+                    cv.wait()
+                budget["cpu"] -= j
+                budget["mem"] -= need_mem
+            try:
+                log("[%s] kani group %d %s features=%s jobs=%d" % (prop, idx, names, list(feats), j))
+                group_results[idx] = run_kani_group(prop, scratch, names, features=list(feats) or None, cbmc_args=list(cargs) or None,
+                                                    timeout_s=tmo, mem_gb=mem, jobs=j, key="%s.%d" % (prop, idx))
+            except Exception as e:  # noqa
+                group_results[idx] = ([dict(harness=n, engine="kani", status="undecided", reason="driver error: %r" % e, checks=0, failed=[],
+                                            covers=(0, 0), duration_s=0.0, stats={}, cmd="") for n in names], 0.0)
+            finally:
+                with cv:
+                    budget["cpu"] += j
+                    budget["mem"] += need_mem
+                    cv.notify_all()
+
+        ths = []
+        for idx, (key, hs) in enumerate(groups.items()):
+            t = threading.Thread(target=worker, args=(idx, key, hs))
+            t.start()
+            ths.append(t)
+        for t in ths:
+            t.join()
+    for idx, (key, hs) in enumerate(groups.items()):
         feats, cargs, tmo, mem, jobs = key
-        names = [h["name"] for h in hs]
-        log("[%s] kani group %s features=%s" % (prop, names, list(feats)))
-        results, wall = run_kani_group(prop, scratch, names, features=list(feats) or None, cbmc_args=list(cargs) or None,
-                                       timeout_s=tmo, mem_gb=mem, jobs=(jobs or None))
+        results, wall = group_results[idx]
         if results:
             cmds.append(results[0]["cmd"])
         for h, r in zip(hs, results):
-            solver_time["cbmc_symex_s"] += r["stats"].get("runtime_symex_s", 0) or 0
-            solver_time["cbmc_solver_s"] += r["stats"].get("runtime_solver_s", 0) or 0
+            solver_time["cbmc_symex_s"] += (r.get("stats") or {}).get("runtime_symex_s", 0) or 0
+            solver_time["cbmc_solver_s"] += (r.get("stats") or {}).get("runtime_solver_s", 0) or 0
             ob = dict(name="K:%s" % h["name"], engine="kani/cbmc", status=r["status"], exhaustive=bool(h.get("exhaustive")),
                       bound=h.get("bound", ""), checks=r["checks"], covers="%d/%d" % r["covers"], duration_s=r["duration_s"],
                       claim=h.get("claim", ""), detail=r.get("reason", ""))
@@ -686,7 +782,7 @@ def run_check(prop, spec, tier, seed, scratch, workdir):
                     ob["status"] = "known"
                     continue
                 violations.append(dict(obligation=obname, engine="kani", message=descr, detail=json.dumps(unl)[:3000], harness=h["name"],
-                                       features=list(feats), cbmc_args=list(cargs)))
+                                       features=list(feats), cbmc_args=list(cargs), key="%s.%d" % (prop, idx)))
 
     # ---- verdict
     wall = round(time.time() - t_start, 2)
